@@ -136,11 +136,11 @@ def measure(job):
     ya = sp.nufft(xl, c32)
     yb = sp.nufft(xl, c32)
     za = sp.nufft_adjoint(ya, c32, oshape=shape)
+    if F32 is not None:
+        out.append((cls_name(1.25, 4), np.linalg.norm(yb - F32 @ xl.ravel()) / (nF * np.linalg.norm(xl) / np.sqrt(xl.size)), "second call with float32 coordinates vs the exact transform"))
     out.append(("determinism", float(np.abs(ya - yb).max()), "nufft called twice with the same float32 coordinate array"))
     if not np.array_equal(c32, c32_0):
         out.append(("purity", 1.0, "nufft / nufft_adjoint modified the float32 coordinate array"))
-    if F32 is not None:
-        out.append((cls_name(1.25, 4), np.linalg.norm(yb - F32 @ xl.ravel()) / (nF * np.linalg.norm(xl) / np.sqrt(xl.size)), "second call with float32 coordinates vs the exact transform"))
     # batch axis, complex64 precision, real input, operator-level checks at the defaults
     coord = pts.copy()
     xb = rs.randn(2, *shape) + 1j * rs.randn(2, *shape)
